@@ -38,7 +38,19 @@ pub fn gen(seed: u64, tier: Tier) -> ScenarioSpec {
     }
     if spec.live.as_ref().map_or(true, |l| l.drop_at.is_none()) && rng.chance(1, 10) {
         // the stream fails hard in the middle of the recording: what was completed before must be intact
-        spec.stream.hard_error_call = Some(rng.below(600) as u32);
+        if rng.chance(1, 2) {
+            spec.stream.hard_error_call = Some(rng.below(600) as u32);
+        } else {
+            // inside an event chosen by kind
+            let m = recorder::build(&spec.recorder);
+            let mut kinds: Vec<u8> = m.events.iter().skip(1).map(|e| e.code).collect();
+            kinds.sort();
+            kinds.dedup();
+            let k = *rng.pick(&kinds);
+            let inst: Vec<&recorder::Ev> = m.events.iter().skip(1).filter(|e| e.code == k).collect();
+            let e = inst[rng.usize_below(inst.len())];
+            spec.stream.hard_error_offset = Some((e.off + rng.usize_below(e.len)) as u64);
+        }
         spec.stream.hard_error_kind = rng.below(6) as u8;
     }
     spec.knobs.insert("recheck_every".into(), *rng.pick(&[0i64, 0, 7, 50]));
